@@ -25,6 +25,12 @@ def scenarios(ctx):
         [("start", 0.0, "D", 3000), ("start", 0.0, "W", 5000), ("start", 0.0, "Z", 7000), ("ack", 0.0, "D", 0)],
         [("start", 0.0, "G", 3000), ("ack", 0.0, "G", 0)],
         [("start", 0.0, "W", 3000), ("ack", 0.0, "W", 0), ("ack", 0.0, "W", 0), ("ack", 0.0, "W", 0), ("start", 0.0, "B", 5000)],
+        # two / three requests for the SAME command await their responses; a younger one ends first (cancelled); close()
+        # must still reach the older ones
+        [("start", 0.0, "Z", 7000), ("ack", 0.0, "Z", 0), ("start", 0.0, "Z", 9000), ("ack", 0.0, "Z", 0), ("cancel", 0.999, "Z", 0)],
+        [("start", 0.0, "Z", 7000), ("ack", 0.0, "Z", 0), ("start", 0.0, "Z", 8000), ("ack", 0.0, "Z", 0), ("start", 0.0, "Z", 9000),
+         ("ack", 0.0, "Z", 0), ("cancel", 0.5, "Z", 0)],
+        [("start", 0.0, "P", 7000), ("ack", 0.0, "P", 0), ("start", 0.0, "P", 3000), ("cancel", 0.999, "P", 0)],
     ]
     for base in bases:
         for cutat in range(1, len(base) + 1):
